@@ -313,6 +313,8 @@ def check(ctx):
     resolve_single_shape(ctx)
     derive_shape(ctx)
     status_array_shape(ctx)
+    guards.check_applied_unless_empty(ctx, [f for f in ctx.prog.all_functions() if f.module.name.startswith('adsg_core.graph.')])
+    ctx.floor('A5e', 2, 'guarded applications of a computed modification (incompatibility removal, floating nodes)')
     ctx.floor('A4', 15, 'derivation walks')
     ctx.floor('A5', 12, 'apply/resolve shape clauses')
 
@@ -320,6 +322,12 @@ def check(ctx):
 from ..selftest import V  # noqa: E402
 
 VARIANTS = [
+    V('single-incompatible-node-kept', 'graph/adsg.py',
+      [("            if len(removed_nodes) > 0:\n                dsg = dsg.get_for_adjusted(removed_nodes=removed_nodes)", "            if len(removed_nodes) > 1:\n                dsg = dsg.get_for_adjusted(removed_nodes=removed_nodes)")], key='A5e'),
+    V('floating-removal-needs-both', 'graph/adsg_basic.py',
+      [("if len(removed_edges) > 0 or len(removed_nodes) > 0:", "if len(removed_edges) > 0 and len(removed_nodes) > 0:")], key='A5e'),
+    V('twin-truthiness-guard', 'graph/adsg.py',
+      [("            if len(removed_nodes) > 0:\n                dsg = dsg.get_for_adjusted(removed_nodes=removed_nodes)", "            if removed_nodes:\n                dsg = dsg.get_for_adjusted(removed_nodes=removed_nodes)")], expect='silent'),
     V('choice-node-not-removed', 'graph/choices.py',
       [("    removed_nodes.add(choice_node)\n\n    # Process incompatibility constraints", "    # Process incompatibility constraints")],
       key='choice-node-removed'),
